@@ -29,6 +29,8 @@ def run(ck):
         v = vl.check_outputs(mr, [res[0]["html"]])[0] if 0 in res else None
         if v is not None and v[1] != "1":
             ck.known("%s: %s" % (k["id"], k["what"]))
+    from checks import emitlib
+    emitlib.tie(ck, hb, failing, ok, 160 if ck.quick else 4000)
     common.report(ck, failing, ok, mlog, "coq/Properties/C03.v (cone) no longer compiles")
 
 
